@@ -15,7 +15,9 @@ RULE = ("alloc: the harness binary installs divan::AllocProfiler as #[global_all
         "logs (clock reads, clear, snapshot, generator/counter/call/drop events) must equal the model's; streams with "
         "no user allocation at all and with allocations only outside the calls must report no figures. sb_thread "
         "(monitor + timed-section decomposition) and the attribution equation are evaluated on the implementation's "
-        "output. Non-trivial = at least one sample reports non-zero figures (scripted stream) / at least one call "
+        "output. tuned-alloc: no sample_size (tuning rounds 1,2,4,...), the call script runs only for the first FL calls "
+        "of a thread, so discarded tuning rounds allocate and kept samples may not: the reported figures of a kept sample must "
+        "be the tally of its own calls. Non-trivial = at least one sample reports non-zero figures (scripted stream) / at least one call "
         "(other streams).")
 ASSUMPTIONS = [
     "compiler and CPU respect the fences around the timestamp reads (time/fence.rs): the model is program order per thread",
@@ -53,6 +55,7 @@ def has_call(c, m):
 def script_hist(cases):
     h = S.hist(cases)
     h["scripts"] = {k: sum(1 for c in cases if S.field(c, k) != "-") for k in "GKFOI"}
+    h["call_script_limit"] = sum(1 for c in cases if S.field(c, "FL") not in (None, "-"))
     return h
 
 
@@ -75,11 +78,18 @@ def streams(tier, rng):
         if g == k == o == i == "-":
             g = "a16,d"
         outside.append(S.case(e, sh, S.rand_cs(rng, e), rng.randrange(2), ss, sc, th, test, G=g, K=k, F="-", O=o, I=i))
+    tuned = [S.rand_tuned(rng, scripts=True) for _ in range(1500 if tier == "quick" else 25000)]
     return [
         Stream("corpus-alloc", "alloc", _corpus("alloc"), nontrivial=has_call),
         Stream("alloc-scripted", "alloc", scripted, nontrivial=has_figures, hist=script_hist(scripted)),
         Stream("alloc-no-user-allocation", "alloc", zero, nontrivial=has_call, hist=script_hist(zero)),
         Stream("alloc-only-outside-the-calls", "alloc", outside, nontrivial=has_call, hist=script_hist(outside)),
+        # tuned sample size: early calls allocate, later ones do not; the figures of a kept sample must be the
+        # tally of its own calls (nothing inherited from a discarded tuning round with the same index)
+        Stream("corpus-tuned-alloc", "tuned-alloc", _corpus("tuned-alloc"), nontrivial=has_call,
+               model_input=lambda c, i: c + "\t" + i),
+        Stream("tuned-alloc", "tuned-alloc", tuned, nontrivial=has_call, model_input=lambda c, i: c + "\t" + i,
+               hist=script_hist(tuned)),
         # optimised build (allocation elision, reordering around the timestamps would show here)
         Stream("alloc-scripted-release", "alloc", scripted if tier != "quick" else scripted[::2], nontrivial=has_figures, release=True),
         Stream("alloc-no-user-allocation-release", "alloc", zero if tier != "quick" else zero[::2], nontrivial=has_call, release=True),
@@ -103,6 +113,8 @@ def shrink(item, rerun):
                          ("K", ["-"]), ("G", ["-", "a16,d"]), ("O", ["-", "a8,d"]), ("I", ["-", "a4,d"]), ("F", ["-", "a32"])):
             cur = S.field(case, k)
             for v in cands:
+                if cur is None or cur == "-":
+                    continue
                 if str(v) == cur or (k in ("th", "sc", "ss") and int(v) >= int(cur)):
                     continue
                 if cur in [str(x) for x in cands] and [str(x) for x in cands].index(cur) < cands.index(v):
